@@ -439,7 +439,11 @@ func (f *file) ReadDir(n int) ([]hackpadfs.DirEntry, error) {
 	}
 	start, end := f.offset, f.offset+int64(n)
 	if n <= 0 {
-		start, end = 0, int64(len(dirNames))
+		// all entries that remain after the ones already returned, like os.File
+		if start > int64(len(dirNames)) {
+			start = int64(len(dirNames))
+		}
+		end = int64(len(dirNames))
 	} else {
 		if start >= int64(len(dirNames)) {
 			// no entries remain
